@@ -4,6 +4,7 @@ package main
 // loading contracts (repo //@ files + /verif/libspec), Go type -> SMT sort mapping.
 
 import (
+	"regexp"
 	"fmt"
 	"go/ast"
 	"go/printer"
@@ -203,6 +204,8 @@ func isRefType(t types.Type) bool {
 	return false
 }
 
+var anyWord = regexp.MustCompile(`\bany\b`)
+
 func typeKey(t types.Type) string {
 	s := types.TypeString(t, func(p *types.Package) string {
 		path := p.Path()
@@ -211,6 +214,8 @@ func typeKey(t types.Type) string {
 		}
 		return path
 	})
+	// `any` is an alias of interface{}: identical types must share one heap entry
+	s = anyWord.ReplaceAllString(s, "interface {}")
 	k := sanitize(s)
 	if len(k) > 60 {
 		h := fnv.New32a()
